@@ -27,7 +27,23 @@ pub fn replay_case(case: &Value, tally: &mut Tally) {
                 let _ = std::fs::remove_file(&name);
                 if ok { "ok" } else { "err" }
             },
-            "SparseBuilder::new" => if SparseBuilder::new(ext(&c["n"]), ext(&c["m"])).is_ok() { "ok" } else { "err" },
+            "SparseBuilder::new" => match SparseBuilder::new(ext(&c["n"]), ext(&c["m"])) {
+                Err(_) => "err",
+                Ok(mut b) => {
+                    let (n, m) = (ext(&c["n"]), ext(&c["m"]));
+                    if n > (1usize << 40) && m >= 1 && m <= 100 {
+                        // a builder at the top of the range is usable: the last m positions are accepted and the vector holds them
+                        use simple_sds::ops::{BitVec, Select};
+                        use simple_sds::sparse_vector::SparseVector;
+                        use std::convert::TryFrom;
+                        for p in (n - m)..n { if b.try_set(p).is_err() { return "err-set"; } }
+                        match SparseVector::try_from(b) {
+                            Ok(v) => if v.len() == n && v.count_ones() == m && v.one_iter().map(|x| x.1).eq((n - m)..n) { "ok" } else { "wrong-content" },
+                            Err(_) => "err-build",
+                        }
+                    } else { "ok" }
+                },
+            },
             "RLBuilder::try_set" => {
                 let mut b = RLBuilder::new();
                 b.set_len(ext(&c["len0"]));
